@@ -23,6 +23,21 @@ CHECKS = {
          "For all 20 groups, every value of the closure R (identity, generators, Pick/Hash/Embed points, sums, negations, multiples, decoded forms - i.e. non-normalised internal coordinates) and every reduced scalar (alphabet, arithmetic results, SetBytes/Pick/SetInt64 results) is encoded and decoded into receivers in four prior states, through MarshalBinary/UnmarshalBinary, MarshalTo, UnmarshalFrom under 7 reader behaviours (one-byte, half, data+EOF, trailing, short, empty), and the util/encoding hex helpers; all pairs are checked for Equal <=> identical bytes <=> model equality.",
          "Trusted: the free-module model (C01) for point equality, testing/iotest readers. Only values in the closure are covered.",
          "DESIGN.md §4 C03"),
+ "C05": ("model_checking",
+         "stateless exploration of all operation sequences to depth 2 over a variable pool with every aliasing pattern, on the real objects, no state merging; reference = same step on fresh unaliased copies",
+         "For all 20 groups, every program of depth <= 2 over ~175 operations (Add/Sub with all 27 receiver/operand aliasings, Neg, Set, Clone, Mul(s,p|nil), Null, Base, Pick, Embed; scalar Add/Sub/Mul/Div with all 8 aliasings, Neg, Inv, Set, Clone, Zero, One, SetInt64, SetBytes, Pick) on a pool of 3 points (one non-normalised) and 2 scalars is replayed from a fresh pool; after every step the encodings of ALL variables are compared with the reference and the returned value with the receiver. Expensive groups explore the second step only after first steps that write variable 0 (quick tier; stated in evidence).",
+         "Trusted: decode(encode(.)) yields an independent copy; hidden sharing that changes no encoding within depth 2 is invisible.",
+         "DESIGN.md §4 C05"),
+ "C06": ("model_checking",
+         "exhaustive enumeration of G1xG2 value pairs / quadruples on the real pairing code vs. a bilinear-form model recomputed with GT.Add only",
+         "For the five pairing suites: every pair of the G1 and G2 value sets (identity, generators, hashed/picked points, affine decoded forms, projective sums, negations, clones, boundary multiples) is paired twice and compared with the model form; e(aP,bQ)=(ab)e(P,Q) and additivity in both arguments over the scalar core {0,1,2,q-1,r1,r2}; non-degeneracy; ValidatePairing on all 6^4 quadruples of reduced sets against the model verdict, repeated and cross-checked with Pair on the same objects.",
+         "Trusted: independence of hashed generators, GT.Add as recomputation primitive (C01).",
+         "DESIGN.md §4 C06"),
+ "C07": ("model_checking",
+         "exhaustive subset x arrangement enumeration of share slices on the real recovery code vs. a math/big polynomial model",
+         "For every (t,n), 1<=t<=n<=5 (Ed25519; 3-4 for P-256, bn256.G1, kilic.G2; thorough up to 7), secrets {0,1,q-1,r}, bases {nil, explicit, independent}: every subset of the shares in every order (all permutations up to 4 shares), with nil gaps, surplus and repeated shares, goes through RecoverSecret/RecoverCommit/RecoverPriPoly/RecoverPubPoly (each twice, identical bytes, inputs unchanged): dealer's values iff >= t distinct shares, else an error. Eval vs model, PubPoly.Eval = Commit(PriPoly.Eval), Check over a share alphabet, Add/Mul homomorphisms.",
+         "Trusted: math/big; map-iteration order inside Recover* is not controllable (results compared across two executions).",
+         "DESIGN.md §4 C07"),
 }
 
 NOT_YET = "check not built yet in this round (planned: see DESIGN.md §4)"
